@@ -727,9 +727,27 @@ def _run_layer_e() -> dict:
             with _real_open(path, "w", encoding="utf-8", newline="") as f:
                 f.write(text)
         shutil.rmtree(JOB["out_dir"], ignore_errors=True)
+    run_tool = tool_main
+    if JOB.get("library_entry"):
+        # library use: the function behind the command line is called with the paths exactly as they are spelled (the
+        # command line resolves them first); the arguments are parsed by the tool's own parser
+        try:
+            from safeds_stubgen.api_analyzer.cli import _cli as _tool_cli
+
+            _get_args, _run = _tool_cli._get_args, _tool_cli._run_stub_generator  # noqa: SLF001
+
+            def run_tool() -> None:
+                a = _get_args()
+                _run(src_dir_path=a.src, out_dir_path=a.out, docstring_style=a.docstyle, is_test_run=a.testrun,
+                     convert_identifiers=a.naming_convert, type_source_preference=a.type_source_preference,
+                     type_source_warning=a.show_type_source_warning)
+
+            out["library_entry"] = "used"
+        except (ImportError, AttributeError):
+            out["library_entry"] = "unavailable"  # the internals were renamed: fall back to the command line entry
     STATE["active"] = True
     try:
-        tool_main()
+        run_tool()
         STATE["active"] = False
         out["outcome"] = "completed"
     except SystemExit as e:
